@@ -2202,9 +2202,22 @@ void Analyser::AnalyserImpl::analyseEquationUnits(const AnalyserEquationAstPtr &
                                    + expressionUnits(ast->mPimpl->mOwnedRightChild, rightUnitsMaps, rightUserUnitsMaps, rightUnitsMultipliers) + ".";
             }
         } else if (!isDimensionlessUnitsMaps(unitsMaps)) {
+            // Note: the power/root whose exponent value is not available is
+            //       usually our right child (e.g., a = pow(b, c)), but it may
+            //       also be elsewhere (e.g., -pow(b, c) or pow(b, c)+d), in
+            //       which case we rely on the exponent that was tracked.
+
+            auto powerAst = ast->mPimpl->mOwnedRightChild;
+            auto exponentAst = (powerAst != nullptr) ? powerAst->mPimpl->mOwnedRightChild : nullptr;
+
+            if (exponentAst == nullptr) {
+                exponentAst = powerData.mExponentAst;
+                powerAst = exponentAst->parent();
+            }
+
             issueDescription = "The units in " + expression(ast) + " may not be equivalent. "
                                + expressionUnits(ast->mPimpl->mOwnedLeftChild, unitsMaps, userUnitsMaps, unitsMultipliers) + " while "
-                               + expression(ast->mPimpl->mOwnedRightChild->mPimpl->mOwnedRightChild, false) + " may result in " + expression(ast->mPimpl->mOwnedRightChild, false) + " having different units.";
+                               + expression(exponentAst, false) + " may result in " + expression(powerAst, false) + " having different units.";
         }
     } break;
     case AnalyserEquationAst::Type::PIECEWISE:
